@@ -127,7 +127,7 @@ impl Writer2 {
             path = self.dir.join("data").join(format!("{sub}-{}", self.next_file)).join(&name);
         }
         std::fs::create_dir_all(path.parent().unwrap()).unwrap();
-        let lay = ParquetLayout { file_cuts: vec![], row_group_rows: 1 + rng.usize(64), dictionary: rng.coin(), stats: 2, stem: "x".into(), same_name_dirs: false };
+        let lay = ParquetLayout { file_cuts: vec![], row_group_rows: 1 + rng.usize(64), dictionary: rng.coin(), stats: 2, stem: "x".into(), same_name_dirs: false, empty_row_groups: vec![] };
         datagen::write_parquet_file(&t, 0, n_rows, &path, &lay).unwrap();
         self.rows.insert(path.clone(), ids);
         path
@@ -293,7 +293,14 @@ pub fn run_c17(_p: &str, tier: Tier, run_seed: u64, _ov: &Value) -> RunOut {
                     }
                 }
                 new_manifests.retain(|(_, es)| !es.is_empty());
-                let mpath = |w: &Writer2, n: u64| w.dir.join("metadata").join(format!("m{n}-{snapshot_id}.avro"));
+                // manifest names must be unique within a commit: two manifests rewritten by one
+                // delete once drew the same random number, the second was then never written
+                // and the list named one file twice (a harness fault, not an engine one)
+                let mseq = std::cell::Cell::new(0u32);
+                let mpath = |w: &Writer2, n: u64| {
+                    mseq.set(mseq.get() + 1);
+                    w.dir.join("metadata").join(format!("m{n}-{snapshot_id}-{}.avro", mseq.get()))
+                };
                 match kind {
                     0..=3 => {
                         let n_files = 1 + rng.usize(3);
